@@ -1,5 +1,5 @@
 #!/usr/bin/env python3
-"""developer driver: python3 vx/dev.py <unit> [fs] [-v]"""
+"""developer driver: python3 vx/dev.py <unit> [fs] [-v]   (with VX_REPO set — a scratch worktree — the generated file gets its own name, so that a check running on /repo at the same time is not disturbed)"""
 import sys, os, importlib
 sys.path.insert(0, os.path.dirname(os.path.abspath(__file__)))
 sys.path.insert(0, os.path.join(os.path.dirname(os.path.abspath(__file__)), "..", "units"))
@@ -10,7 +10,7 @@ fss = [a for a in sys.argv[2:] if a in ("all", "default", "luajit")] or ["all"]
 m = importlib.import_module(name)
 for fs in fss:
     try:
-        r = run.run_unit(m.UNIT, fs)
+        r = run.run_unit(m.UNIT, fs, tag=("-dev" if os.environ.get("VX_REPO") else ""))
     except ExtractError as e:
         print("EXTRACT ERROR", e); sys.exit(2)
     print(run.summarize(r, verbose="-v" in sys.argv))
